@@ -62,6 +62,8 @@ def configs(tier, seed):
     out.append(_mk(True, False, 1, 1, None, 7 if q else 10, depth=3))
     out.append(_mk(False, True, 1, 2, None, 6 if q else 9, depth=3))
     out.append(_mk(True, False, 1, 1, 2, 6 if q else 9, width=4))
+    # three write ports (not a power of two) on the ILVT-based memory types
+    out.append(_mk(False, False, 1, 3, None, 6 if q else 8, mem="MultiportXORILVTMemory"))
     if q:
         return out
     for mem in MEMTYPES[1:]:
